@@ -86,6 +86,7 @@ type Exec struct {
 	curLabel   string
 	dryDepth   int
 	useStrings bool
+	atReturnHits map[*Clause]int
 	modeTags   []string
 	noEnv      int
 	splitVar   string
@@ -95,7 +96,7 @@ type Exec struct {
 func newExec(prog *Program, pkg *packages.Package) *Exec {
 	return &Exec{prog: prog, pkg: pkg, info: pkg.TypesInfo, vc: newVC(), heapBase: map[string]Value{}, heapMakers: map[string]func() Value{},
 		ord: map[string]int{}, abstractions: map[string]bool{}, catParts: map[string][2]Term{}, mayWriteCache: map[string]map[string]bool{},
-		mayWriteBusy: map[string]bool{}, modeFlags: map[string]bool{}, specDecls: map[string]bool{}, ghostLocalSorts: map[string]*Sort{}}
+		mayWriteBusy: map[string]bool{}, modeFlags: map[string]bool{}, specDecls: map[string]bool{}, ghostLocalSorts: map[string]*Sort{}, atReturnHits: map[*Clause]int{}}
 }
 
 func (x *Exec) frame() *Frame { return x.frames[len(x.frames)-1] }
@@ -538,6 +539,38 @@ func (x *Exec) returnStmt(s *ast.ReturnStmt, st *State) {
 	if st.dead {
 		return
 	}
+	// `atreturn` clauses of the function under verification: at this return, with the locals in scope
+	if len(x.frames) == 1 && x.topC != nil && len(x.topC.AtReturn) > 0 && x.vc.silent == 0 {
+		env := x.frameEnv(st)
+		env.vars = copyVars(env.vars)
+		for i := 0; i < fr.sig.Results().Len() && i < len(vals); i++ {
+			name := fr.sig.Results().At(i).Name()
+			if i < len(x.topC.ResultNames) {
+				name = x.topC.ResultNames[i]
+			}
+			if name != "" && name != "_" {
+				env.vars[name] = x.capture(TV{V: vals[i], T: fr.sig.Results().At(i).Type()}, env)
+			}
+		}
+		for _, c := range x.topC.AtReturn {
+			func() {
+				defer func() {
+					// a return before the clause's locals are declared is not one the clause speaks about
+					if r := recover(); r != nil {
+						if msg, ok := r.(string); ok && strings.HasPrefix(msg, "spec: unknown identifier") {
+							return
+						}
+						panic(r)
+					}
+				}()
+				parts := x.specConjuncts(c.Expr, env)
+				x.atReturnHits[c]++
+				for _, g := range parts {
+					x.assert(st, "atreturn", g.label(c.Label), g.t, c.Tags, s.Pos())
+				}
+			}()
+		}
+	}
 	x.doReturn(st, vals)
 }
 
@@ -893,7 +926,7 @@ func (x *Exec) forStmt(s *ast.ForStmt, st *State, label string) {
 	if spec != nil {
 		for _, gs := range spec.Inits {
 			v := x.specValue(gs.Expr, env.at(st))
-			x.setHeap(st, "gv:"+gs.Var, x.coerceGhost(v.V, "gv:"+gs.Var, st))
+			x.setHeap(st, x.ghostVarKey(gs.Var), x.coerceGhost(v.V, x.ghostVarKey(gs.Var), st))
 		}
 	}
 	x.loopInvs(spec, st, env, "inv-init", s.Pos())
@@ -1032,6 +1065,12 @@ func (x *Exec) rangeIndexed(s *ast.RangeStmt, st *State, label string, spec *Loo
 	x.setHeap(st, idxKey, zeroOf(is))
 	env := x.loopEnv(st)
 	env.loopIdxKey = idxKey
+	if spec != nil {
+		for _, gs := range spec.Inits {
+			v := x.specValue(gs.Expr, env.at(st))
+			x.setHeap(st, x.ghostVarKey(gs.Var), x.coerceGhost(v.V, x.ghostVarKey(gs.Var), st))
+		}
+	}
 	x.loopInvs(spec, st, env, "inv-init", s.Pos())
 	one := x.constOfSort(1, is)
 	body := func(sb *State, lc *loopCtx) *State {
@@ -1098,6 +1137,12 @@ func (x *Exec) rangeMap(s *ast.RangeStmt, st *State, label string, spec *LoopSpe
 	has0 = x.vc.name("has0", has0)
 	env := x.loopEnv(st)
 	env.visitedKey = visKey
+	if spec != nil {
+		for _, gs := range spec.Inits {
+			v := x.specValue(gs.Expr, env.at(st))
+			x.setHeap(st, x.ghostVarKey(gs.Var), x.coerceGhost(v.V, x.ghostVarKey(gs.Var), st))
+		}
+	}
 	x.loopInvs(spec, st, env, "inv-init", s.Pos())
 	body := func(sb *State, lc *loopCtx) *State {
 		k := x.vc.fresh("k", ks)
@@ -1240,9 +1285,12 @@ func (x *Exec) loopAssumeInvs(spec *LoopSpec, st *State, env *loopEnvT) {
 }
 
 func (x *Exec) ghostSteps(spec *LoopSpec, st *State, env *loopEnvT) {
+	if st.pc.S == "false" {
+		return // a back edge that cannot be taken (e.g. behind a constant-false platform test)
+	}
 	for _, gs := range spec.Steps {
 		v := x.specValue(gs.Expr, env.at(st))
-		x.setHeap(st, "gv:"+gs.Var, x.coerceGhost(v.V, "gv:"+gs.Var, st))
+		x.setHeap(st, x.ghostVarKey(gs.Var), x.coerceGhost(v.V, x.ghostVarKey(gs.Var), st))
 	}
 }
 
@@ -1281,4 +1329,13 @@ func loopOrdinals(body ast.Node) map[ast.Node]int {
 func sortedObls(os []*Obligation) []*Obligation {
 	sort.SliceStable(os, func(i, j int) bool { return os[i].Name < os[j].Name })
 	return os
+}
+
+
+// ghostVarKey: a ghost step/init may update a function-local ghost variable or a declared global ghost.
+func (x *Exec) ghostVarKey(name string) string {
+	if g, ok := x.prog.Contracts.Ghosts[name]; ok && g.Owner == "" {
+		return x.ghostKey(name)
+	}
+	return "gv:" + name
 }
